@@ -194,6 +194,14 @@ func init() {
 		mutant{Name: "own-methods-recorded-before-promoted-ones", Prop: "C05", File: "interp/type.go", Old: "\t\t// Get all methods defined on this type.\n\t\tfor _, m := range typ.method {\n\t\t\tres[m.ident] = m.typ.TypeOf().String()\n\t\t}\n\t\treturn res", New: "\t\treturn res",
 			More: [][2]string{{"\t\tseen[typ] = true\n\n\t\tswitch typ.cat {\n\t\tcase linkedT:\n\t\t\tfor k, v := range getMethods(typ.val) {", "\t\tseen[typ] = true\n\t\tfor _, m := range typ.method {\n\t\t\tres[m.ident] = m.typ.TypeOf().String()\n\t\t}\n\n\t\tswitch typ.cat {\n\t\tcase linkedT:\n\t\t\tfor k, v := range getMethods(typ.val) {"}}, Rule: "R05.3", Key: "itype.methods/own-methods-shadow-promoted"},
 		mutant{Name: "map-literal-keys-not-dependencies", Prop: "C15", File: "interp/cfg.go", Old: "\t\t\tif n.anc.kind == selectorExpr && childPos(n) == 1 {\n\t\t\t\treturn false\n\t\t\t}\n\t\t\tsym := n.sym\n", New: "\t\t\tif n.anc.kind == selectorExpr && childPos(n) == 1 {\n\t\t\t\treturn false\n\t\t\t}\n\t\t\tif n.anc.kind == keyValueExpr && childPos(n) == 0 {\n\t\t\t\treturn false\n\t\t\t}\n\t\t\tsym := n.sym\n", Rule: "R15.5", Key: "getVarDependencies/skip:keyValueExpr"},
+		mutant{Name: "signed-bound-by-bitlen-admits-full-width-negatives", Prop: "C03", File: "interp/typecheck.go", Old: "\t\t\ti, ok := constant.Int64Val(x)\n\t\t\tif !ok {\n\t\t\t\treturn false\n\t\t\t}\n\t\t\t// A signed integer of n bits holds values in [-2^(n-1), 2^(n-1)-1].\n\t\t\ts := uint(bitlen[t.Kind()] - 1)\n\t\t\treturn i >= -1<<s && i <= 1<<s-1\n", New: "\t\t\tn := bitlen[t.Kind()]\n\t\t\tif constant.Sign(x) < 0 {\n\t\t\t\treturn constant.BitLen(x) <= n\n\t\t\t}\n\t\t\treturn constant.BitLen(x) < n\n", Rule: "R03.4", Key: "representableConst/signed-no-full-width"},
+		mutant{Name: "benign-signed-bound-by-bitlen-exact", Prop: "C03", File: "interp/typecheck.go", Old: "\t\t\ti, ok := constant.Int64Val(x)\n\t\t\tif !ok {\n\t\t\t\treturn false\n\t\t\t}\n\t\t\t// A signed integer of n bits holds values in [-2^(n-1), 2^(n-1)-1].\n\t\t\ts := uint(bitlen[t.Kind()] - 1)\n\t\t\treturn i >= -1<<s && i <= 1<<s-1\n", New: "\t\t\tn := bitlen[t.Kind()]\n\t\t\tif constant.Sign(x) < 0 {\n\t\t\t\treturn constant.BitLen(x) < n || constant.Compare(x, token.EQL, constant.Shift(constant.MakeInt64(-1), token.SHL, uint(n-1)))\n\t\t\t}\n\t\t\treturn constant.BitLen(x) < n\n", Benign: true},
+		mutant{Name: "rune-literal-decoded-through-a-string", Prop: "C03", File: "interp/ast.go", Old: "\t\t\t\tv, _, _, _ := strconv.UnquoteChar(a.Value[1:len(a.Value)-1], '\\'')\n\t\t\t\tn.rval = reflect.ValueOf(v)\n", New: "\t\t\t\tif s, err := strconv.Unquote(a.Value); err == nil {\n\t\t\t\t\tn.rval = reflect.ValueOf([]rune(s)[0])\n\t\t\t\t}\n", Rule: "R03.6", Key: "ast/literal:CHAR"},
+		mutant{Name: "untyped-promotion-overwrites-shared-type", Prop: "C03", File: "interp/typecheck.go", Old: "\t\t\tif nkind <= tkind {\n\t\t\t\tn.typ = typ\n\t\t\t}", New: "\t\t\tif nkind <= tkind && n.typ != typ {\n\t\t\t\t*n.typ = *typ\n\t\t\t\tn.typ.node = n\n\t\t\t}", Rule: "R03.7", Key: "typecheck.convertUntyped/itype-overwritten-in-place"},
+		mutant{Name: "name-rule-last-element-os-not-checked", Prop: "C17", File: "interp/build.go", Old: "\t\tcase knownOs[y] && y != ctx.GOOS:\n\t\t\treturn true\n", New: "", Rule: "R17.7", Key: "skipFile/keep-verdict#3/last-element-decided"},
+		mutant{Name: "name-rule-goos-prefix-keeps-other-os", Prop: "C17", File: "interp/build.go", Old: "\t\t\treturn knownOs[y] && y != ctx.GOOS\n", New: "\t\t\treturn false\n", Rule: "R17.7", Key: "skipFile/keep-verdict#2/last-element-decided"},
+		mutant{Name: "name-rule-test-suffix-kept", Prop: "C17", File: "interp/build.go", Old: "\tp = strings.TrimSuffix(p, \"_test\")\n", New: "", Rule: "R17.7", Key: "skipFile/test-suffix-removed-before-split"},
+		mutant{Name: "benign-name-rule-in-gobuild-shape", Prop: "C17", File: "interp/build.go", Old: "\t\tswitch x, y := a[last-1], a[last]; {\n\t\tcase x == ctx.GOOS:\n\t\t\tif knownArch[y] {\n\t\t\t\treturn y != ctx.GOARCH\n\t\t\t}\n\t\t\treturn knownOs[y] && y != ctx.GOOS\n\t\tcase knownOs[x] && knownArch[y]:\n\t\t\treturn true\n\t\tcase knownArch[y] && y != ctx.GOARCH:\n\t\t\treturn true\n\t\tcase knownOs[y] && y != ctx.GOOS:\n\t\t\treturn true\n\t\tdefault:\n\t\t\treturn false\n\t\t}\n", New: "\t\tif x, y := a[last-1], a[last]; knownOs[x] && knownArch[y] {\n\t\t\treturn x != ctx.GOOS || y != ctx.GOARCH\n\t\t}\n", Benign: true},
 		// ---- C18
 		mutant{Name: "var-bound-by-value-in-generator", Prop: "C18", File: "extract/extract.go", Old: "\t\t\tval[name] = Val{pname, true}", New: "\t\t\tval[name] = Val{pname, false}", Rule: "R18.2", Key: "genContent/addr-only-for-vars"},
 		mutant{Name: "template-forwards-wrong-field", Prop: "C18", File: "extract/extract.go", Old: "\t\t\t{{- $m.Ret}} W.W{{$m.Name}}{{$m.Arg -}}", New: "\t\t\t{{- $m.Ret}} W.{{$m.Name}}{{$m.Arg -}}", Rule: "R18.3", Key: "model/wrapper-method"},
